@@ -12,3 +12,92 @@ package lite
 //@   at-call Split#2 as s2: assert called(s1) && streq(arg0, res(s1)[0]) && streq(arg1, "///")
 //@   at-call Trim as tr: assert called(s2) && streq(arg0, res(s2)[0]) && streq(arg1, ".")
 //@   ensures [forge-then-tcpshield-then-dots] called(tr) && streq(result, res(tr))
+
+// ---- C30: backend selection per strategy, once per attempt, exact connection counts ----------------------------------
+// Strategy state that concurrent connections share is only touched under its own lock.
+//@ guarded_by StrategyManager.activeConnectionsMu : activeConnections
+
+// Dispatch: each configured strategy goes to its own selector over the SAME backend list; empty and unknown strategies
+// are sequential; an empty list selects nothing.
+//@ func (*StrategyManager).GetNextBackend
+//@   props C30
+//@   at-call sequentialNextBackend as seq: assert route.Strategy != config.StrategyRandom && route.Strategy != config.StrategyRoundRobin && route.Strategy != config.StrategyLeastConnections && route.Strategy != config.StrategyLowestLatency && arg0 == sm && ref(arg2) == ref(backends) && len(arg2) == len(backends)
+//@   at-call randomNextBackend as rnd: assert route.Strategy == config.StrategyRandom && ref(arg2) == ref(backends) && len(arg2) == len(backends)
+//@   at-call roundRobinNextBackend as rr: assert route.Strategy == config.StrategyRoundRobin && streq(arg2, routeHost) && ref(arg3) == ref(backends) && len(arg3) == len(backends)
+//@   at-call leastConnectionsNextBackend as lc: assert route.Strategy == config.StrategyLeastConnections && ref(arg2) == ref(backends) && len(arg2) == len(backends)
+//@   at-call lowestLatencyNextBackend as ll: assert route.Strategy == config.StrategyLowestLatency && ref(arg2) == ref(backends) && len(arg2) == len(backends)
+//@   ensures [empty-list-selects-nothing] len(backends) == 0 ==> !result.2 && !called(seq) && !called(rnd) && !called(rr) && !called(lc) && !called(ll)
+//@   ensures [one-selector-runs] len(backends) != 0 ==> called(seq) || called(rnd) || called(rr) || called(lc) || called(ll)
+//@   ensures [an-element-of-the-list] result.2 ==> (exists k int :: 0 <= k && k < len(backends) && streq(result.0, backends[k]))
+
+// sequential: config order, i.e. the first of what is left.
+//@ func (*StrategyManager).sequentialNextBackend
+//@   props C30
+//@   ensures [first-of-the-remaining] len(backends) != 0 ==> result.2 && streq(result.0, backends[0])
+//@   ensures [an-element-of-the-list] result.2 ==> (exists k int :: 0 <= k && k < len(backends) && streq(result.0, backends[k]))
+//@   ensures [empty-list-selects-nothing] len(backends) == 0 ==> !result.2
+
+// round-robin: the index is read and advanced in one critical section; the pick is backends[index mod n].
+//@ func (*StrategyManager).roundRobinNextBackend
+//@   props C30
+//@   at-call LoadOrStore as ld: assert held(sm.roundRobinMu) == wlocked && arg0 == sm.roundRobinIndexes
+//@   at-call Store as st: assert [advanced-in-the-same-critical-section] held(sm.roundRobinMu) == wlocked && called(ld) && arg0 == sm.roundRobinIndexes && dyntype(arg2, "int") && cast(arg2, int) == index + 1
+//@   ensures [rotating-pick] len(backends) != 0 ==> result.2 && called(st) && index % len(backends) >= 0 ==> streq(result.0, backends[index % len(backends)])
+//@   ensures [empty-list-selects-nothing] len(backends) == 0 ==> !result.2 && !called(ld)
+//@   ensures [an-element-of-the-list] result.2 ==> (exists k int :: 0 <= k && k < len(backends) && streq(result.0, backends[k]))
+
+// random: the shared source is used under its lock; the pick is an element of the list.
+//@ func (*StrategyManager).randomNextBackend
+//@   props C30
+//@   at-call Intn as pick: assert [rng-under-its-lock] held(sm.rngMu) == wlocked && arg0 == sm.rng && arg1 == len(backends) && arg1 > 0
+//@   ensures [an-element-of-the-list] len(backends) != 0 ==> result.2 && called(pick) && streq(result.0, backends[res(pick)])
+//@   ensures [empty-list-selects-nothing] len(backends) == 0 ==> !result.2 && !called(pick)
+//@   ensures [an-element-of-the-list] result.2 ==> (exists k int :: 0 <= k && k < len(backends) && streq(result.0, backends[k]))
+
+// Connection counts: every open forwarded connection adds one under the lock to the canonical (route, backend) key; its
+// close function takes exactly one away (deleting the entry at zero, never going below).
+//@ func (*StrategyManager).TrackConnection
+//@   props C30
+//@   at-call canonicalConnectionKey as ck: assert streq(arg0, routeHost) && streq(arg1, backend)
+//@   at-call mapupdate:activeConnections as inc: assert [one-more-under-the-lock] held(sm.activeConnectionsMu) == wlocked && arg0 == sm.activeConnections && streq(arg1, res(ck)) && arg2 == ite(has(sm.activeConnections, arg1), sm.activeConnections[arg1], 0) + 1
+//@   at-call IncrementConnection as strat: assert streq(arg1, backend) && held(sm.activeConnectionsMu) == none
+//@   ensures [counted] called(inc) && called(strat)
+//@ func (*StrategyManager).TrackConnection$1
+//@   props C30
+//@   at-call dyn.decrementStrategyCounter as dec
+//@   at-call delete:activeConnections as del: assert [last-one-removes-the-entry] held(sm.activeConnectionsMu) == wlocked && arg0 == sm.activeConnections && streq(arg1, key) && ite(has(sm.activeConnections, key), sm.activeConnections[key], 0) <= 1
+//@   at-call mapupdate:activeConnections as put: assert [one-less-under-the-lock] held(sm.activeConnectionsMu) == wlocked && arg0 == sm.activeConnections && streq(arg1, key) && has(sm.activeConnections, key) && sm.activeConnections[key] > 1 && arg2 == sm.activeConnections[key] - 1
+//@   ensures [exactly-one-taken-away] called(dec) && (called(del) != called(put))
+//@ func (*StrategyManager).ActiveConnections
+//@   props C30
+//@ func (*StrategyManager).IncrementConnection
+//@   props C30
+//@   at-call Add as up: assert [counted-under-the-strategy-lock] held(sm.strategyCountersMu) == wlocked && arg1 == 1
+//@ func (*StrategyManager).IncrementConnection$2
+//@   props C30
+//@   at-call Add as down: assert [never-below-zero] held(sm.strategyCountersMu) == wlocked && arg1 == 4294967295
+
+// Whatever the strategy, a selected backend is an element of the list it was given.
+//@ func (*StrategyManager).leastConnectionsNextBackend
+//@   props C30
+//@   loop 1: invariant rangeindex >= -1 && rangeindex < len(backends) && (len(leastBackend) == 0 || (exists k int :: 0 <= k && k < len(backends) && streq(leastBackend, backends[k])))
+//@   ensures [an-element-of-the-list] result.2 ==> (exists k int :: 0 <= k && k < len(backends) && streq(result.0, backends[k]))
+//@   ensures [non-empty-list-selects] len(backends) != 0 ==> result.2
+//@ func (*StrategyManager).lowestLatencyNextBackend
+//@   props C30
+//@   at-call Get as probe: assert arg0 == sm.latencyCache
+//@   loop 1: invariant rangeindex >= -1 && rangeindex < len(backends) && (len(lowestBackend) == 0 || (exists k int :: 0 <= k && k < len(backends) && streq(lowestBackend, backends[k])))
+//@   ensures [an-element-of-the-list] result.2 ==> (exists k int :: 0 <= k && k < len(backends) && streq(result.0, backends[k]))
+//@   ensures [non-empty-list-selects] len(backends) != 0 ==> result.2
+
+// One connection attempt: nextBackend picks from what is left and takes the pick out of the list, so every call that
+// hands out a backend makes the list strictly shorter - each entry is handed out at most once and the attempt ends
+// (tryBackends stops at the first !ok). A pick whose address does not parse is removed by its spelling.
+//@ func findRoute$1
+//@   props C30
+//@   at-call GetNextBackend as pick: assert [picks-from-what-is-left] arg0 == strategyManager && arg2 == route && streq(arg3, host) && ref(arg4) == ref(tryBackends) && len(arg4) == len(tryBackends) && len(tryBackends) != 0
+//@   loop 1: invariant !removed && rangeindex >= -1 && rangeindex < len(tryBackends) && len(tryBackends) == old(len(tryBackends)) && ref(tryBackends) == old(ref(tryBackends))
+//@   loop 2: invariant !removed && rangeindex >= -1 && rangeindex < len(tryBackends) && len(tryBackends) == old(len(tryBackends)) && ref(tryBackends) == old(ref(tryBackends)) && (forall j int :: 0 <= j && j <= rangeindex && j < len(tryBackends) ==> !streq(tryBackends[j], backendAddr))
+//@   ensures [nothing-left-ends-the-attempt] old(len(tryBackends)) == 0 ==> !result.2
+//@   ensures [every-pick-shortens-the-list] result.2 ==> len(tryBackends) == old(len(tryBackends)) - 1
+//@   ensures [the-pick-is-handed-out] result.2 ==> called(pick) && res(pick, 2) && streq(result.0, res(pick, 0))
